@@ -32,8 +32,8 @@ FALSY = {"non_negative": False, "l1_reg": 0.0, "l2_reg": 0, "l2_square_reg": 0.0
          "hard_sparsity": 0}
 # parameters for real runs of the hard kinds
 RUN_PARAMS = {"non_negative": [True], "monotonicity": [True], "unimodality": [True], "normalize": [True],
-              "simplex": [1.0, 0.5, 2.5, 3], "soft_sparsity": [1.0, 0.3, 2.0], "hard_sparsity": [2, 3, 5],
-              "normalized_sparsity": [2, 3, 4], "l1_reg": [0.05], "l2_reg": [0.1], "l2_square_reg": [0.2], "smoothness": [0.3]}
+              "simplex": [1.0, 0.5, 2.5, 3], "soft_sparsity": [1.0, 0.3, 2.0], "hard_sparsity": [2, 3, 5, 1],
+              "normalized_sparsity": [2, 3, 4, 1], "l1_reg": [0.05], "l2_reg": [0.1], "l2_square_reg": [0.2], "smoothness": [0.3]}
 TOL = 1e-9
 
 
@@ -235,18 +235,28 @@ def feasible(kind, p, F):
             if not any((np.diff(c[:i + 1]) >= -TOL).all() and (np.diff(c[i:]) <= TOL).all() for i in range(len(c))):
                 return f"column {j} is not unimodal: {c.tolist()}"
         return None
+    # hard_sparsity / normalized_sparsity / normalize: the property is stated column-wise; the code acts on the whole factor
+    # matrix (k non-zeros, unit Frobenius norm, max |entry| = 1 in the whole factor), which is stronger for the counts and a
+    # different reading for the norms.  Verdicts: the column-wise count (implied by the whole-matrix one); for the norms either
+    # reading is accepted (whole factor, or every non-zero column).
     if kind == "hard_sparsity":
-        nz = int(np.count_nonzero(F))
-        return None if nz <= p else f"{nz} non-zero entries > {p}"
+        nz = np.count_nonzero(F, axis=0)
+        return None if (nz <= p).all() else f"non-zero entries per column {nz.tolist()} > {p}"
     if kind == "normalized_sparsity":
-        nz = int(np.count_nonzero(F))
-        if nz > p:
-            return f"{nz} non-zero entries > {p}"
+        nz = np.count_nonzero(F, axis=0)
+        if not (nz <= p).all():
+            return f"non-zero entries per column {nz.tolist()} > {p}"
         nr = float(np.linalg.norm(F))
-        return None if abs(nr - 1.0) <= TOL else f"norm {nr!r} != 1"
+        cn = np.linalg.norm(F, axis=0)
+        if abs(nr - 1.0) <= TOL or all(abs(c - 1.0) <= TOL for c in cn if c != 0):
+            return None
+        return f"norm {nr!r} != 1 (column norms {cn.tolist()})"
     if kind == "normalize":
         mx = float(np.abs(F).max())
-        return None if abs(mx - 1.0) <= TOL else f"max |entry| {mx!r} != 1"
+        cm = np.abs(F).max(axis=0)
+        if abs(mx - 1.0) <= TOL or (mx > 0 and all(abs(c - 1.0) <= TOL for c in cm if c != 0)):
+            return None
+        return f"max |entry| {mx!r} != 1 (column maxima {cm.tolist()})"
     if kind == "soft_sparsity":
         s = np.abs(F).sum(axis=0)
         return None if (s <= p + TOL * max(1.0, abs(p)) * rows).all() else f"column l1 norms {s.tolist()} > {p}"
@@ -268,6 +278,18 @@ def make_data(cfg):
         X = 1e-3 * X
     elif dk == "big":
         X = 1e3 * X
+    elif dk in ("replicated", "replicated_int"):
+        # constant along mode rep_mode (replicated slices): the MTTKRP / SVD of that mode has identical rows -> exact ties
+        m = cfg.get("rep_mode", 0) % len(cfg["shape"])
+        shp = list(cfg["shape"]); shp[m] = 1
+        S = np.random.RandomState(cfg["seed"]).randn(*shp)
+        if dk == "replicated_int":
+            S = np.round(2 * S) + (S > 0)
+        X = np.repeat(S, cfg["shape"][m], axis=m)
+    elif dk == "const":
+        X = np.full(cfg["shape"], float(rs.randint(1, 4)))
+    elif dk == "signs":
+        X = np.sign(X) * float(rs.randint(1, 3))          # one magnitude, random signs
     return X
 
 
@@ -332,6 +354,15 @@ def run_cfg(cfg, rec=None):
             return dict(status="skip", message=f"could not build a feasible init: {v}")
         user = [np.array(f, copy=True) for f in v.factors]
         init = CPTensor((None, [np.array(f, copy=True) for f in user]))
+    elif cfg["init"] in ("user_ones", "user_rows", "user_signs"):
+        # structured warm starts: identical rows / one magnitude -> exact ties in the iterates of a symmetric problem
+        if cfg["init"] == "user_ones":
+            user = [np.ones((d, rank)) for d in cfg["shape"]]
+        elif cfg["init"] == "user_rows":
+            user = [np.repeat(rs.randn(1, rank), d, axis=0) for d in cfg["shape"]]
+        else:
+            user = [np.sign(rs.randn(d, rank)) * 0.5 for d in cfg["shape"]]
+        init = CPTensor((None, [np.array(f, copy=True) for f in user]))
     else:
         user = [rs.randn(d, rank) for d in cfg["shape"]]
         w = np.ones(rank) if cfg["init"] == "user_w1" else None
@@ -393,6 +424,8 @@ def run_predicates(cfg, res):
         return fails, 0
     if res["status"] in ("skip",):
         return fails, 0
+    if res["status"] != "ok" and cfg["n_inner"] == 0 and cfg["n_outer"] > 0:
+        return fails, 0      # C11_admm_returns_operator_output: an inner budget >= 1 is needed (compared through the trace)
     if res["status"] != "ok":
         if degenerate_message(res["message"]):
             return fails, 0  # degenerate problem (singular Gram matrix) or timeout on a loaded machine, outside the property
@@ -466,9 +499,10 @@ def run_admm(cfg, rec):
     r, rows, n, order = cfg["rank"], cfg["rows"], cfg["n"], cfg["order"]
     A = rs.randn(r + 3, r)
     UtU = A.T @ A + 0.5 * np.eye(r)
-    x0 = rs.randn(rows, r)
-    UtM = rs.randn(rows, r) * cfg.get("scale", 1.0)
-    dual = np.zeros((rows, r)) if cfg.get("zero_dual", True) else 0.1 * rs.randn(rows, r)
+    how = cfg.get("input", "generic")
+    x0 = structured_matrix(rs, rows, r, how)
+    UtM = structured_matrix(rs, rows, r, how, cfg.get("scale", 1.0))
+    dual = np.zeros((rows, r)) if (cfg.get("zero_dual", True) or how != "generic") else 0.1 * rs.randn(rows, r)
     spec = spec_from_json(cfg["spec"])
     with rec:
         st, v = C.call_impl(admm, UtM, UtU, x0, dual, n_iter_max=cfg["n_iter"], n_const=n, order=order, tol=cfg.get("tol", 1e-6), **spec)
@@ -478,7 +512,7 @@ def run_admm(cfg, rec):
     if st != "ok":
         if degenerate_message(v):
             return None, fails, False
-        if exp is not None and not any(e is AMBIGUOUS for e in exp):
+        if exp is not None and not any(e is AMBIGUOUS for e in exp) and cfg["n_iter"] > 0:
             fails.append(("C11_valid_request_returns", f"admm raised on a valid request: {v}"))
         return "Err", fails, False
     if exp is None:
@@ -511,6 +545,25 @@ def direct_operators():
             "hard_sparsity": PX.hard_thresholding}
 
 
+def structured_matrix(rs, rows, cols, how, scale=1.0):
+    """signed test matrices; everything but 'generic' carries exactly tied magnitudes"""
+    if how == "ties":                 # few magnitudes, random signs
+        M = rs.choice([0.5, 1.0, 2.0], size=(rows, cols)) * np.sign(rs.randn(rows, cols))
+    elif how == "one_magnitude":
+        M = np.sign(rs.randn(rows, cols)) * 1.5
+    elif how == "rows":               # identical rows
+        M = np.repeat(rs.randn(1, cols), rows, axis=0)
+    elif how == "const":
+        M = np.full((rows, cols), float(rs.choice([-2.0, 1.0, 3.0])))
+    elif how == "int":
+        M = np.round(1.5 * rs.randn(rows, cols))
+    elif how == "zeros_and_ties":
+        M = rs.choice([0.0, 0.0, 1.0, -1.0, 2.0], size=(rows, cols))
+    else:
+        M = rs.randn(rows, cols)
+    return M * scale
+
+
 def same_array(a, b):
     a, b = np.asarray(a), np.asarray(b)
     return a.shape == b.shape and bool(np.allclose(a, b, rtol=1e-12, atol=1e-14, equal_nan=True))
@@ -521,7 +574,7 @@ def run_prox(cfg):
     against the operator functions called directly with every parameter the request mentions for that keyword"""
     from tensorly.tenalg.proximal import proximal_operator
     rs = np.random.RandomState(cfg["seed"])
-    T = rs.randn(cfg["rows"], cfg["rank"]) * cfg.get("scale", 1.0)
+    T = structured_matrix(rs, cfg["rows"], cfg["rank"], cfg.get("input", "generic"), cfg.get("scale", 1.0))
     n, order = cfg["n"], cfg["order"]
     spec = spec_from_json(cfg["spec"])
     st, out = C.call_impl(proximal_operator, np.array(T, copy=True), n_const=n, order=order, **spec)
@@ -568,6 +621,10 @@ def run_prox(cfg):
         want = "PvRaw" if e is None else tag_lit(*e)
         if lit != want:
             fails.append(("C11_dispatch", f"proximal_operator(order={order}): the output is {lit} (identified by value), the request asks for {want}"))
+        if e is not None and e[0] in HARD:
+            msg = feasible(e[0], e[1], out)
+            if msg and msg != "degenerate":
+                fails.append(("C11_feasible_" + e[0], f"proximal_operator(order={order}, {e[0]}={e[1]!r}) on a {cfg.get('input', 'generic')} matrix: {msg}"))
     return "(Ok (" + lit + "))", fails
 
 
@@ -742,6 +799,28 @@ def gen_run_cfgs(tier, rng):
             spec = {k1: form_spec(k1, f1, (m,), n, RUN_PARAMS[k1][0]), k2: form_spec(k2, f2, (m,), n, RUN_PARAMS[k2][0])}
             cfg.update(n_outer=n_outer, n_inner=1, init=init, spec=spec_to_json(spec))
             yield cfg, "double"
+    # inner budget 0: admm returns a variable its loop never bound (the code raises, the model is Err) as soon as one mode is
+    # updated; with outer budget 0 nothing is updated and the initial factors come back
+    for _ in range(10 * mult):
+        cfg = base()
+        n = len(cfg["shape"])
+        k = rng.choice(HARD)
+        S = tuple(sorted(rng.sample(range(n), rng.randint(1, n))))
+        cfg.update(n_outer=rng.choice([0, 1, 1, 3]), n_inner=0, init=rng.choice(["svd", "random", "user"]),
+                   spec=spec_to_json({k: form_spec(k, rng.choice(["list", "dict"]), S, n, rng.choice(RUN_PARAMS[k]))}))
+        yield cfg, "inner0"
+    # exact ties in the iterates: data constant along the constrained mode (replicated slices) / one magnitude, structured warm
+    # starts (all ones, identical rows, one magnitude) or svd; parameters below the number of tied entries
+    for k in HARD:
+        for _ in range((6 if k in ("hard_sparsity", "normalized_sparsity") else 2) * mult):
+            cfg = base(order=3)
+            cfg["shape"] = [rng.randint(3, 5) for _ in range(3)]
+            m = rng.randrange(3)
+            init = rng.choice(["user_ones", "user_ones", "user_rows", "user_signs", "svd"])
+            cfg.update(data=rng.choice(["replicated", "replicated", "replicated_int", "const", "signs"]), rep_mode=m, init=init,
+                       n_outer=rng.choice([0, 1] if init == "svd" else [1, 1, 3]), n_inner=rng.choice([1, 3]), via_class=False,
+                       spec=spec_to_json({k: form_spec(k, rng.choice(["scalar", "list", "dict"]), (m,), 3, rng.choice(RUN_PARAMS[k]))}))
+            yield cfg, "ties"
     # the same through the decomposition: a negative key names a mode another keyword addresses -> rejected
     for _ in range(6 * mult):
         cfg = base()
@@ -803,6 +882,29 @@ def gen_small_cfgs(tier, rng):
                 order = rng.randrange(n)
                 yield dict(kind="prox", n=n, order=order, rank=rng.choice([2, 3]), rows=rng.randint(5, 7), seed=rng.randrange(1 << 30),
                            spec=spec_to_json({k: form_spec(k, form, tuple(range(n)) if form == "scalar" else (order,), n, p)})), "prox"
+    # inner budget 0: x_split is never bound, admm raises (Err in the model)
+    for _ in range(8 * mult):
+        n = rng.choice([1, 3])
+        order = rng.randrange(n)
+        yield dict(kind="admm", n=n, order=order, rank=rng.choice([1, 2]), rows=rng.randint(3, 5), n_iter=0, seed=rng.randrange(1 << 30),
+                   zero_dual=True, tol=1e-6, spec=spec_to_json(one_spec(n, order))), "admm_inner0"
+    # exact ties straddling a cutoff / a threshold: every hard kind on structured (tied) inputs, through the dispatch and through admm
+    inputs = ["ties", "one_magnitude", "rows", "const", "int", "zeros_and_ties"]
+    for k in HARD:
+        for how in inputs:
+            for p in RUN_PARAMS[k]:
+                for _ in range(mult):
+                    n = rng.choice([1, 3])
+                    order = rng.randrange(n)
+                    yield dict(kind="prox", n=n, order=order, rank=rng.choice([1, 2, 3]), rows=rng.randint(3, 6), seed=rng.randrange(1 << 30),
+                               input=how, scale=rng.choice([1.0, 1.0, 0.25]),
+                               spec=spec_to_json({k: form_spec(k, rng.choice(["scalar", "list", "dict"]), tuple(range(n)), n, p)})), "prox_ties"
+            for _ in range(mult):
+                n = rng.choice([1, 3])
+                order = rng.randrange(n)
+                yield dict(kind="admm", n=n, order=order, rank=rng.choice([1, 2, 3]), rows=rng.randint(3, 6), n_iter=rng.choice([1, 2, 3]),
+                           seed=rng.randrange(1 << 30), input=how, zero_dual=True, tol=1e-6,
+                           spec=spec_to_json({k: form_spec(k, rng.choice(["list", "dict"]), (order,), n, rng.choice(RUN_PARAMS[k]))})), "admm_ties"
 
 
 def load_corpus():
@@ -956,10 +1058,11 @@ def run(chk):
         "dict keys are Python ints (negative keys wrap around, as list indexing does) and parameters are bool/int/float (the value space of the model)",
         "feasibility of an operator's output (range subset of the constraint set) is the subject of C12; here it is evaluated on every returned factor, not proved",
         "hard_sparsity / normalized_sparsity / normalize act on the whole factor matrix in the code (k non-zeros, unit Frobenius norm, max |entry| = 1 per factor); "
-        "the predicates judge exactly that (it implies the column-wise bounds)",
+        "the predicates judge the column-wise count <= k (implied by the whole-matrix count) and accept either reading of the norm (whole factor, or every non-zero column)",
         "a user-supplied initial CP tensor is not passed through the operators (documented); its factors are judged only where the run updates them, "
         "or when the supplied factors were feasible",
-        "inner budget 0 raises in the code (x_split unbound) and is Err in the model; not exercised against the implementation"]
+        "inner budget 0 raises in the code (x_split unbound) and is Err in the model; compared through the trace / admm correspondence "
+        "(a run that raises there is not judged by the predicates)"]
     chk.trusted += ["module-attribute interposition of proximal_operator (records order, validated constraint, output) for the provenance traces",
                     "numerical content of the ADMM step, MTTKRP, SVD and of the operators is abstract in the model (arbitrary functions)"]
     return finish_with_local_known(chk, CLASSIFIERS)
